@@ -54,7 +54,7 @@ try:
     pkg = "./" + os.path.dirname(dpath)
     dm = re.findall(r"^func (Test\w+)\(", open(demo).read(), re.M)
     runpat = "^(" + "|".join(dm) + ")$"
-    raceflag = "-race " if "//go:build race" in open(demo).read() else ""
+    raceflag = "-race " if ("//go:build race" in open(demo).read() or "go test -race" in dpath_txt) else ""
     if raceflag:
         env["CGO_ENABLED"] = "1"
     r1 = sh("go test %s-vet=off -count=1 -run '%s' %s" % (raceflag, runpat, pkg), timeout=1800)
